@@ -8,6 +8,12 @@ import IrisVerif.Model.ModelLangTok
 import Mathlib.Algebra.Field.Basic
 import Mathlib.Algebra.BigOperators.Group.List.Basic
 import Mathlib.Tactic.Ring
+import Mathlib.Tactic.FieldSimp
+import Mathlib.Algebra.Order.Field.Basic
+import Mathlib.Algebra.Order.Field.Rat
+import Mathlib.Tactic.Positivity
+import Mathlib.Tactic.NormNum
+import Mathlib.Data.Rat.Defs
 
 namespace IrisVerif.C04
 
@@ -1038,5 +1044,211 @@ theorem window_neg (t k : Int) (h : k < 0) : window t k = (List.range k.natAbs).
   simp [this, Int.sub_eq_add_neg]
 
 example : window 10 4 = [10, 11, 12, 13] := by decide
+
+/-! ## 12. Statement audit: concrete instances of the hypotheses, rejection branches -/
+
+/-- a concrete carrier: the rationals, `^` read as multiplication by the exponent (any function will do), functions as identity -/
+def ratAlg : Alg ℚ := fieldAlg (fun q => q) (fun a b => a * b) (fun _ x => x) (fun _ x _ => x)
+def rampData : Data ℚ := fun _ s => (s : ℚ)
+
+example : eval ratAlg rampData 5 (expandPF .diff (.bin .mul (.name "x" 0) (.name "y" (-1))) (-2)) = 5 * 4 - 3 * 2 := by
+  rw [ratAlg, eval_diff]; simp [eval, fieldAlg, rampData]
+
+example : eval ratAlg rampData 5 (expandPF .pct (.name "x" 0) (-1)) = 100 * ((5 : ℚ) / 4 - 1) := by
+  rw [ratAlg, eval_pct _ _ _ _ _ _ _ _ rfl]; simp [eval, fieldAlg, rampData]
+
+example : eval ratAlg rampData 10 (expandPF .movSum (.name "x" 0) (-4)) = 10 + 9 + 8 + 7 := by
+  rw [ratAlg, eval_movSum _ _ _ _ _ _ _ _ (by decide)]
+  have : window 10 (-4) = [10, 9, 8, 7] := by decide
+  simp [this, eval, fieldAlg, rampData]; norm_num
+
+example : eval ratAlg rampData 10 (expandPF .movProd (.name "x" 0) 3) = 10 * (11 * 12) := by
+  rw [ratAlg, eval_movProd _ _ _ _ _ _ _ _ (by decide)]
+  have : window 10 3 = [10, 11, 12] := by decide
+  simp [this, eval, fieldAlg, rampData]
+
+example : eval ratAlg rampData 5 (expandPF .roc (.name "x" 0) (resolveShift .roc (some 0))) = 1 := by
+  rw [ratAlg]; exact eval_roc_zero _ _ _ _ _ _ _ (by simp [eval, fieldAlg, rampData])
+
+/-! ### macro expansion rejects exactly the sides that mention an undefined substitution -/
+
+def _root_.IrisVerif.ModelLang.PExpr.refs : PExpr → List String
+  | .num _ => []
+  | .name _ _ => []
+  | .neg e => e.refs
+  | .bin _ a b => a.refs ++ b.refs
+  | .call1 _ a => a.refs
+  | .call2 _ a b => a.refs ++ b.refs
+  | .pseudo _ _ _ => []
+  | .subs s => [s]
+
+theorem expand_isSome_iff (defs : String → Option Expr) (p : PExpr) :
+    (expand defs p).isSome ↔ ∀ s ∈ p.refs, (defs s).isSome := by
+  induction p with
+  | num q => simp [expand, PExpr.refs]
+  | name n k => simp [expand, PExpr.refs]
+  | neg a ih => simpa [expand, PExpr.refs] using ih
+  | bin op a b iha ihb =>
+    simp only [expand, PExpr.refs, List.mem_append]
+    cases ha : expand defs a <;> cases hb : expand defs b <;> simp_all [or_imp, forall_and]
+  | call1 f a ih => simpa [expand, PExpr.refs] using ih
+  | call2 f a b iha ihb =>
+    simp only [expand, PExpr.refs, List.mem_append]
+    cases ha : expand defs a <;> cases hb : expand defs b <;> simp_all [or_imp, forall_and]
+  | pseudo pf arg s => simp [expand, PExpr.refs]
+  | subs s => simp [expand, PExpr.refs]
+
+/-- rejection: one undefined `$s$` anywhere in a side makes the expansion fail (the code reports a syntax error) -/
+theorem expand_none_of_undefined (defs : String → Option Expr) (p : PExpr) (s : String) (hs : s ∈ p.refs) (hd : defs s = none) :
+    expand defs p = none := by
+  have := (expand_isSome_iff defs p).not.mpr (by
+    intro h; have := h s hs; simp [hd] at this)
+  simpa using this
+
+example : expand (fun s => if s = "s0" then some (.name "a" 0) else none)
+    (.bin .mul (.subs "s0") (.pseudo .diff (.name "x" 0) none))
+    = some (.bin .mul (.name "a" 0) (.bin .sub (.name "x" 0) (.name "x" (-1)))) := by decide
+example : expand (fun s => if s = "s0" then some (.name "a" 0) else none) (.bin .mul (.subs "s1") (.num 2)) = none := by decide
+
+/-- `_verify_log_variables`: accepted exactly when every listed name is a declared loggable variable -/
+theorem logListOk_iff (decls : List Decl) (listed : List String) :
+    logListOk decls listed = true ↔ ∀ n ∈ listed, ∃ d ∈ decls, d.name = n ∧ d.kind.loggable = true := by
+  simp [logListOk]
+
+example : logListOk [⟨.tv, "x", ""⟩, ⟨.par, "a", ""⟩] ["x"] = true ∧ logListOk [⟨.tv, "x", ""⟩, ⟨.par, "a", ""⟩] ["a"] = false := by decide
+
+/-- rejection: a `!for` over a `<...>` expression that cannot be evaluated fails the whole directive stage -/
+theorem resolve_for_bad_context (ctx : Ctx) (c : String) (k : Word) (body rest : Forest) (h : ctx.lists k.render = none) :
+    resolve ctx (Forest.for c (.ctx k) body rest).flatten = .error .bad := by
+  rw [resolve_flatten]
+  simp [Forest.denote, Toks.substAll, Toks.eval, h, bind, Except.bind]
+
+/-- rejection: an `!if` whose condition cannot be evaluated -/
+theorem resolve_if_bad_context (ctx : Ctx) (k : Word) (th el : Forest) (he : Bool) (rest : Forest) (h : ctx.flags k.render = none) :
+    resolve ctx (Forest.ite (.flag k) th he el rest).flatten = .error .bad := by
+  rw [resolve_flatten]
+  simp [Forest.denote, Cond.substAll, Cond.eval, h, bind, Except.bind]
+
+/-- non-vacuity of the end-to-end statement: both sides of `diff(x) = $s0$ * 2` expand -/
+example (ofRat : Rat → ℚ) (powf : ℚ → ℚ → ℚ) (f1 : String → ℚ → ℚ) (f2 : String → ℚ → ℚ → ℚ) (data : Data ℚ) (t : Int) :
+    (parseEqn (printEqn (.eq (.bin .sub (.name "x" 0) (.name "x" (-1))) (.bin .mul (.name "a" 0) (.num 2))))).map
+        (fun p => eval (fieldAlg ofRat powf f1 f2) data t p.xtring)
+      = (do let a ← evalDoc (fieldAlg ofRat powf f1 f2) (fun s => if s = "s0" then some (.name "a" 0) else none) data t
+                  (.bin .mul (.subs "s0") (.num 2))
+            let b ← evalDoc (fieldAlg ofRat powf f1 f2) (fun s => if s = "s0" then some (.name "a" 0) else none) data t
+                  (.pseudo .diff (.name "x" 0) none)
+            pure (a - b)) :=
+  equation_end_to_end ofRat powf f1 f2 _ data t _ _ _ _ (by decide) (by decide)
+
+/-! ## 13. Operator precedence and associativity of minimally parenthesised text (for all names / shifts) -/
+
+section Prec
+variable (x y z : String) (i j k : Int)
+local notation "X" => Tok.name x i
+local notation "Y" => Tok.name y j
+local notation "Z" => Tok.name z k
+local notation "ex" => Expr.name x i
+local notation "ey" => Expr.name y j
+local notation "ez" => Expr.name z k
+
+/-- `* /` bind tighter than `+ -` -/
+theorem prec_add_mul : parsePrec [X, .op .add, Y, .op .mul, Z] = some (.bin .add ex (.bin .mul ey ez)) := rfl
+theorem prec_mul_add : parsePrec [X, .op .mul, Y, .op .add, Z] = some (.bin .add (.bin .mul ex ey) ez) := rfl
+theorem prec_sub_div : parsePrec [X, .op .sub, Y, .op .div, Z] = some (.bin .sub ex (.bin .div ey ez)) := rfl
+/-- `+ -` and `* /` associate to the left -/
+theorem assoc_sub_sub : parsePrec [X, .op .sub, Y, .op .sub, Z] = some (.bin .sub (.bin .sub ex ey) ez) := rfl
+theorem assoc_sub_add : parsePrec [X, .op .sub, Y, .op .add, Z] = some (.bin .add (.bin .sub ex ey) ez) := rfl
+theorem assoc_div_div : parsePrec [X, .op .div, Y, .op .div, Z] = some (.bin .div (.bin .div ex ey) ez) := rfl
+theorem assoc_div_mul : parsePrec [X, .op .div, Y, .op .mul, Z] = some (.bin .mul (.bin .div ex ey) ez) := rfl
+/-- `^` binds tighter than `* /` and associates to the RIGHT -/
+theorem prec_mul_pow : parsePrec [X, .op .mul, Y, .op .pow, Z] = some (.bin .mul ex (.bin .pow ey ez)) := rfl
+theorem assoc_pow_pow : parsePrec [X, .op .pow, Y, .op .pow, Z] = some (.bin .pow ex (.bin .pow ey ez)) := rfl
+/-- unary minus: looser than `^` on its left (`-x^y = -(x^y)`), allowed in an exponent (`x^-y`), tighter than `* /` -/
+theorem neg_pow : parsePrec [.op .sub, X, .op .pow, Y] = some (.neg (.bin .pow ex ey)) := rfl
+theorem pow_neg : parsePrec [X, .op .pow, .op .sub, Y] = some (.bin .pow ex (.neg ey)) := rfl
+theorem pow_neg_pow : parsePrec [X, .op .pow, .op .sub, Y, .op .pow, Z] = some (.bin .pow ex (.neg (.bin .pow ey ez))) := rfl
+theorem neg_mul : parsePrec [.op .sub, X, .op .mul, Y] = some (.bin .mul (.neg ex) ey) := rfl
+theorem mul_neg : parsePrec [X, .op .mul, .op .sub, Y] = some (.bin .mul ex (.neg ey)) := rfl
+theorem sub_neg : parsePrec [X, .op .sub, .op .sub, Y] = some (.bin .sub ex (.neg ey)) := rfl
+theorem neg_neg : parsePrec [.op .sub, .op .sub, X] = some (.neg (.neg ex)) := rfl
+/-- parentheses override, function calls are primaries -/
+theorem paren_add_mul : parsePrec [.lp, X, .op .add, Y, .rp, .op .mul, Z] = some (.bin .mul (.bin .add ex ey) ez) := rfl
+theorem paren_pow_base : parsePrec [.lp, .op .sub, X, .rp, .op .pow, Y] = some (.bin .pow (.neg ex) ey) := rfl
+theorem call_pow (f : String) : parsePrec [.fn f, .lp, X, .comma, Y, .rp, .op .pow, Z] = some (.bin .pow (.call2 f ex ey) ez) := rfl
+/-- rejection: a dangling operator, an unclosed parenthesis -/
+theorem reject_dangling : parsePrec [X, .op .add] = none := rfl
+theorem reject_unclosed : parsePrec [.lp, X, .op .add, Y] = none := rfl
+
+/-- the text `-(lhs)+a+b` that `_postprocess_xtring` produces for `lhs = a + b` reads `((-lhs)+a)+b`: the right-hand side is not
+re-parenthesised (same value as `(a+b)-lhs` in a field -- `eval_translate` -- but a different order of the floating-point
+additions: the reason why bit-exact comparison is limited to single-term right-hand sides) -/
+theorem translate_text_assoc :
+    parsePrec (translateTokens [X] [Y, .op .add, Z]) = some (.bin .add (.bin .add (.neg ex) ey) ez) := rfl
+/-- for a single-term right-hand side the text is the tree `translate lhs rhs` -/
+theorem translate_text_single :
+    parsePrec (translateTokens [X] [Y, .op .mul, Z]) = some (translate ex (.bin .mul ey ez)) := rfl
+end Prec
+
+/-- the precedence parser also reads the fully parenthesised spelling (instance; the general statement is tied by the `pparse`
+stream, see notes: not proved) -/
+example : parsePrec (printFull (.bin .add (.neg (.name "y" (-1))) (.call2 "maximum" (.num 2) (.bin .pow (.name "z" 1) (.num 3)))))
+    = some (.bin .add (.neg (.name "y" (-1))) (.call2 "maximum" (.num 2) (.bin .pow (.name "z" 1) (.num 3)))) := by decide
+
+/-! ## 14. `<...>` stringification: the text that is re-read is the value -/
+
+theorem ofDigits10_digits10 (n : Nat) : ofDigits10 (digits10 n) = n := by
+  induction n using Nat.strong_induction_on with
+  | _ n ih =>
+    rw [digits10]
+    split
+    · simp [ofDigits10]
+    · rename_i h
+      simp only [ofDigits10]
+      rw [ih (n / 10) (by omega)]
+      omega
+
+/-- every digit is printed: for a value with `k` decimals (`q * 10^k` is an integer) the text re-read is the value itself;
+in particular nothing is rounded to a fixed number of significant digits -/
+theorem reread_stringify (q : Rat) (k : Nat) (h : (q * (10 : Rat) ^ k).den = 1) :
+    rereadDec (stringifyDec q k) = q := by
+  have h10 : ((10 : Rat) ^ k) ≠ 0 := by positivity
+  have hpos : (0 : Rat) < (10 : Rat) ^ k := by positivity
+  set m := q * (10 : Rat) ^ k with hm
+  have hq : q = m / (10 : Rat) ^ k := by rw [hm]; field_simp
+  have hmnum : (m.num : Rat) = m := by
+    have := Rat.num_div_den m
+    rw [h] at this; simpa using this
+  simp only [rereadDec, stringifyDec, ofDigits10_digits10]
+  rw [← hm]
+  by_cases hneg : q < 0
+  · have hm0 : m < 0 := by rw [hm]; exact mul_neg_of_neg_of_pos hneg hpos
+    have hn0 : m.num < 0 := Rat.num_neg.mpr hm0
+    have : ((m.num.natAbs : Nat) : Rat) = -m := by
+      have e : ((m.num.natAbs : Nat) : Int) = -m.num := by omega
+      have : ((m.num.natAbs : Nat) : Rat) = ((-m.num : Int) : Rat) := by rw [← e]; simp
+      rw [this, Int.cast_neg, hmnum]
+    simp only [hneg, decide_true, if_true, this]
+    rw [hq]; field_simp
+  · have hm0 : 0 ≤ m := by rw [hm]; exact mul_nonneg (not_lt.mp hneg) hpos.le
+    have hn0 : 0 ≤ m.num := Rat.num_nonneg.mpr hm0
+    have : ((m.num.natAbs : Nat) : Rat) = m := by
+      have e : ((m.num.natAbs : Nat) : Int) = m.num := by omega
+      have : ((m.num.natAbs : Nat) : Rat) = ((m.num : Int) : Rat) := by rw [← e]; simp
+      rw [this, hmnum]
+    simp only [hneg, decide_false, Bool.false_eq_true, if_false, this]
+    rw [hq]; field_simp
+
+theorem reread_stringifyList (qs : List (Rat × Nat)) (h : ∀ p ∈ qs, (p.1 * (10 : Rat) ^ p.2).den = 1) :
+    (stringifyList qs).map rereadDec = qs.map (·.1) := by
+  induction qs with
+  | nil => rfl
+  | cons p r ih =>
+    simp only [stringifyList, List.map_cons, List.map_map] at ih ⊢
+    rw [reread_stringify p.1 p.2 (h p (by simp))]
+    congr 1
+    exact ih (fun p' hp' => h p' (by simp [hp']))
+
+example : digits10 125 = [5, 2, 1] := by simp [digits10]
+example : rereadDec (stringifyDec (-5 / 4) 2) = -5 / 4 := reread_stringify _ _ (by norm_num)
 
 end IrisVerif.C04
